@@ -2,6 +2,7 @@ package chainsim
 
 import (
 	"fmt"
+	"strings"
 	"time"
 
 	sdk "github.com/cosmos/cosmos-sdk/types"
@@ -39,6 +40,11 @@ func short(err error) string {
 		return "ok"
 	}
 	e := err.Error()
+	// lava's formatted errors append their attributes in Go map order: cut before them so that
+	// the decoded schedule (and the determinism trace hash) never depends on it
+	if i := strings.Index(e, "{"); i >= 0 {
+		e = e[:i]
+	}
 	if len(e) > 110 {
 		e = e[:110]
 	}
